@@ -453,6 +453,11 @@ pub fn supported(d: &RunData) -> bool {
     })
 }
 
+thread_local! {
+    /// (histories searched, model states visited, searches that hit the budget, histories outside the supported alphabet)
+    pub static EXPLAIN_TOTALS: std::cell::Cell<(u64, u64, u64, u64)> = const { std::cell::Cell::new((0, 0, 0, 0)) };
+}
+
 pub struct ExplainStats {
     pub states: u64,
     pub gave_up: bool,
@@ -460,7 +465,14 @@ pub struct ExplainStats {
 
 pub fn o_explain(d: &RunData) -> (Vec<Violation>, ExplainStats) {
     let mut stats = ExplainStats { states: 0, gave_up: false };
-    if d.outcome.abort.is_some() || !supported(d) {
+    if d.outcome.abort.is_some() {
+        return (vec![], stats);
+    }
+    if !supported(d) {
+        EXPLAIN_TOTALS.with(|t| {
+            let (a, b, c, e) = t.get();
+            t.set((a, b, c, e + 1));
+        });
         return (vec![], stats);
     }
     let ntasks = d.case.tasks.len() + 1;
@@ -502,6 +514,10 @@ pub fn o_explain(d: &RunData) -> (Vec<Violation>, ExplainStats) {
     let ok = cx.dfs(st);
     stats.states = cx.seen.len() as u64;
     stats.gave_up = cx.budget == 0;
+    EXPLAIN_TOTALS.with(|t| {
+        let (a, b, c, e) = t.get();
+        t.set((a + 1, b + stats.states, c + stats.gave_up as u64, e));
+    });
     if ok {
         return (vec![], stats);
     }
